@@ -1,31 +1,31 @@
 SPECIFICATION Spec
 CONSTANTS
-  NVB = 1
-  InitLog <- EmptyLog
+  NVB = 2
+  InitLog <- HistA
   MaxSeq = 3
   Keys = {"user"}
-  Kinds = {"mut", "adv"}
+  Kinds = {"mut", "sys", "adv"}
   OldEvents = FALSE
   BadEvents = FALSE
   FoUuid <- Fo10
-  Savers = {"p"}
-  MaxSaves = 0
+  Savers = {"p", "c"}
+  MaxSaves = 2
   MaxCrash = 0
   MaxAcks = 1
-  MaxGen = 6
+  MaxGen = 1
   MaxNotify = 0
-  MaxEnds = 2
+  MaxEnds = 0
   MaxFail = 0
   AutoReset = "earliest"
   Finite = FALSE
   AutoCkpt = FALSE
   Infos <- NoInfos
   Info0 <- Info11
-  EndCauses = {"statechanged"}
+  EndCauses = {}
   Hold = FALSE
   AllowClose = FALSE
-  Rollbacks = TRUE
-  FailSaves = FALSE
+  Rollbacks = FALSE
+  FailSaves = TRUE
   Focus = TRUE
   Record = FALSE
   ReadOnly = FALSE
@@ -35,10 +35,12 @@ CONSTANTS
   RmMonotone = FALSE
   Scrapes = FALSE
   HookScrapes = FALSE
-  Marking = FALSE
+  Marking = TRUE
   WindAt = 0
   Gaps = {}
   Bugs = {}
+  Target = "@TARGET@"
+  DeathOK = @DEATHOK@
 VIEW view
-INVARIANTS C07 C16 C01 C02 C03 C04 C05 C06 C08 C11 C12 C13 C14 C15 StoreAgrees
+INVARIANTS WitnessInv
 CHECK_DEADLOCK FALSE
